@@ -989,7 +989,12 @@ func caseKnife() {
 		if disagree == nil && gap > 40 && tries < 11 {
 			continue
 		}
-		for name, set := range map[string][]int{"nearest-below": below, "nearest-above": above, "scaled-vs-unscaled": disagree} {
+		// (fixed order: the loop body consumes the random stream)
+		for _, ns := range []struct {
+			name string
+			set  []int
+		}{{"nearest-below", below}, {"nearest-above", above}, {"scaled-vs-unscaled", disagree}} {
+			name, set := ns.name, ns.set
 			if set == nil {
 				continue
 			}
